@@ -214,10 +214,9 @@ theorem Inv.stepW (i : Inv h s) (hw : s.ws[w]? = some me) {a : Act} (hs : stepW 
             pendKeep := fun x' r z hx' hz => by
               simp [hh, scanning] at hx'
               obtain ⟨rfl, rfl⟩ := hx'
-              exact Or.inr ⟨r, by simp [hh2], hz⟩ }
+              exact Or.inr ⟨rest, hh2, hz⟩ }
       split at hs
-      · simp only [] at hs
-        split at hs
+      · split at hs
         · split at hs
           · injection hs with hs; subst hs
             exact key _ _ (by simp [held]) (by simp [scanning])
@@ -246,7 +245,7 @@ theorem Inv.stepW (i : Inv h s) (hw : s.ws[w]? = some me) {a : Act} (hs : stepW 
             pendKeep := fun x' r z hx' hz => by
               simp [hh, scanning] at hx'
               obtain ⟨rfl, rfl⟩ := hx'
-              exact Or.inr ⟨r, by simp [scanning], hz⟩ }
+              exact Or.inr ⟨rest, by simp [scanning], hz⟩ }
       · simp at hs
     · simp at hs
   | shareOne =>
@@ -279,7 +278,7 @@ theorem Inv.stepW (i : Inv h s) (hw : s.ws[w]? = some me) {a : Act} (hs : stepW 
           (fun x' r z hx' hz => by
             simp [hh, scanning] at hx'
             obtain ⟨rfl, rfl⟩ := hx'
-            exact Or.inr ⟨r, by simp [scanning], hz⟩))
+            exact Or.inr ⟨rest, by simp [scanning], hz⟩))
       · simp at hs
     · simp at hs
   | scanEnd =>
